@@ -248,7 +248,7 @@ func (e *vDns) match(c *vDCfg, tcp bool, in []byte, cls string, nt bool) vRes {
 				qs[i] = fmt.Sprintf("(%s,%s,%s)", cHex([]byte(q.Name)), cs, ts)
 				for _, rs := range []MatchDNSRules{c.m.Allow, c.m.Deny} {
 					for _, r := range rs {
-						for _, pv := range [][2]string{{r.ClassRegexp, vq.class}, {r.TypeRegexp, vq.typ}, {r.NameRegexp, q.Name}} {
+						for _, pv := range [][2]string{{r.ClassRegexp, vq.class}, {r.TypeRegexp, vq.typ}, {r.NameRegexp, strings.ToLower(q.Name)}} {
 							if pv[0] != "" {
 								res = append(res, fmt.Sprintf("(%s,%s,%s)", cHex([]byte(pv[0])), cHex([]byte(pv[1])), cBool(regexp.MustCompile(pv[0]).MatchString(pv[1]))))
 							}
@@ -439,8 +439,9 @@ func TestVerifMdns(t *testing.T) {
 	mk("no question", false, nil)
 	mk("opcode NOTIFY query", true, func(m *dns.Msg) { m.Opcode = dns.OpcodeNotify }, q("example.com.", dns.TypeSOA, dns.ClassINET))
 	mk("long name", true, nil, q(strings.Repeat("abcdefghijklmnopqrstuvwxyz0123456789.", 6)+"example.com.", dns.TypeA, dns.ClassINET))
-	mk("query with mixed-case name (DNS 0x20)", true, nil, q("eXaMpLe.CoM.", dns.TypeA, dns.ClassINET)).special = "mixed-case-name"
-	mk("query for a denied name in mixed case (DNS 0x20)", true, nil, q("BLOCKED.Example.", dns.TypeMX, dns.ClassINET)).special = "mixed-case-name"
+	mk("query with mixed-case name (DNS 0x20)", true, nil, q("eXaMpLe.CoM.", dns.TypeA, dns.ClassINET))
+	mk("query for a denied name in mixed case (DNS 0x20)", true, nil, q("BLOCKED.Example.", dns.TypeMX, dns.ClassINET))
+	mk("query for an allowed subdomain in upper case, regexp rules (DNS 0x20)", true, nil, q("WWW.EXAMPLE.COM.", dns.TypeAAAA, dns.ClassINET))
 	mk("query with a known-answer record sharing the name (compressed)", true, func(m *dns.Msg) {
 		rr, _ := dns.NewRR("example.com. 60 IN A 192.0.2.1")
 		m.Answer = []dns.RR{rr}
